@@ -121,6 +121,16 @@ fn f_pair<'a>(args: FunctionArgs<'_, 'a>) -> Option<LhsValue<'a>> {
     show(&a[1], &mut out);
     Some(LhsValue::Bytes(out.into()))
 }
+fn f_join3<'a>(args: FunctionArgs<'_, 'a>) -> Option<LhsValue<'a>> {
+    let a = collect("join3", args);
+    let mut out = Vec::new();
+    show(&a[0], &mut out);
+    out.push(b'|');
+    show(&a[1], &mut out);
+    out.push(b'|');
+    show(&a[2], &mut out);
+    Some(LhsValue::Bytes(out.into()))
+}
 fn f_plen<'a>(args: FunctionArgs<'_, 'a>) -> Option<LhsValue<'a>> {
     let a = collect("plen", args);
     let mut out = Vec::new();
@@ -371,6 +381,7 @@ pub fn add_func(b: &mut SchemeBuilder, f: &FuncSpec) -> Result<(), String> {
         "alen" => Some(SimpleFunctionImpl::new(f_alen)),
         "pair" => Some(SimpleFunctionImpl::new(f_pair)),
         "plen" => Some(SimpleFunctionImpl::new(f_plen)),
+        "join3" => Some(SimpleFunctionImpl::new(f_join3)),
         "opt2" => Some(SimpleFunctionImpl::new(f_opt2)),
         "lit_only" => Some(SimpleFunctionImpl::new(f_lit_only)),
         "ba" => Some(SimpleFunctionImpl::new(f_ba)),
